@@ -21,14 +21,31 @@ def run_case(case):
     k = api.KERNELS[case['kernel']]
     st = conc.begin(case['inputs'], (not k.exact) if case.get('alt_mode') else k.exact)
     out = dict(obs=[], observed=[], exc=None, vacuous=False, cut=False)
+    class _ReplayTimeout(BaseException):
+        pass
+
+    def _alarm(signum, frame):
+        raise _ReplayTimeout()
+    import signal
+    try:
+        signal.signal(signal.SIGALRM, _alarm)
+        signal.alarm(int(os.environ.get('SX_REPLAY_TIMEOUT_S', '60')))
+    except Exception:
+        pass
     try:
         k.fn(**case['params'])
+    except _ReplayTimeout:
+        out['exc'] = ['ReplayTimeout', 'concrete replay did not end within the time limit', '']
     except conc.Vacuous:
         out['vacuous'] = True
     except conc.CutPath:
         out['cut'] = True
     except Exception as e:
         out['exc'] = [type(e).__name__, str(e)[:300], traceback.format_exc()[-1500:]]
+    try:
+        signal.alarm(0)
+    except Exception:
+        pass
     out['obs'] = [[l, bool(v)] for l, v in st.obs]
     try:
         out['observed'] = [[n, jsonable(v)] for n, v in st.observed]
